@@ -72,6 +72,32 @@ class SpecSeq(object):
         return z3.Implies(z3.And(k >= 0, k < n), z3.SubSeq(self.f(*(list(ps) + [n])), k * L, z3.IntVal(L)) == self.elem(*(list(ps) + [k])))
 
 
+class FilterSeq(SpecSeq):
+    """[item(p,k) for k in range(n) if cond(p,k)]: element k contributes the unit sequence [item] when cond holds, nothing otherwise.
+    Lemmas (proved per run by induction on n, for a fixed witness): membership is sound (every member is a kept item), complete
+    (every kept item is a member) and the list is no longer than the source."""
+    def __init__(self, name, param_sorts, cond, item, item_sort):
+        self.cond, self.item, self.item_sort = cond, item, item_sort
+        rs = z3.SeqSort(item_sort)
+        SpecSeq.__init__(self, name, param_sorts, lambda *a: z3.If(cond(*a), z3.Unit(item(*a)), z3.Empty(rs)), result=rs)
+
+    def lemma_obligations(self):
+        ps = [z3.FreshConst(s_, 'p') for s_ in self.param_sorts]
+        n, k = z3.FreshConst(IntS, 'n'), z3.FreshConst(IntS, 'k'); y = z3.FreshConst(self.item_sort, 'y')
+        F = lambda t: self.f(*(ps + [t]))
+        unfold = lambda t: F(t + 1) == z3.Concat(F(t), self.elem(*(ps + [t])))
+        j = z3.Int('j!w')
+        def sound(t): return z3.Implies(z3.Contains(F(t), z3.Unit(y)), z3.Exists([j], z3.And(0 <= j, j < t, self.cond(*(ps + [j])), self.item(*(ps + [j])) == y)))
+        def complete(t): return z3.Contains(F(t), z3.Unit(self.item(*(ps + [k]))))
+        nm = 'speclib/%s/' % self.name
+        return [(nm + 'members-are-kept-items/base', [F(z3.IntVal(0)) == self.empty], sound(z3.IntVal(0))),
+                (nm + 'members-are-kept-items/step', [n >= 0, sound(n), unfold(n)], sound(n + 1)),
+                (nm + 'kept-items-are-members/base', [k >= 0, self.cond(*(ps + [k])), unfold(k)], complete(k + 1)),
+                (nm + 'kept-items-are-members/step', [k >= 0, n > k, complete(n), unfold(n)], complete(n + 1)),
+                (nm + 'no-longer-than-source/base', [F(z3.IntVal(0)) == self.empty], z3.Length(F(z3.IntVal(0))) <= 0),
+                (nm + 'no-longer-than-source/step', [n >= 0, z3.Length(F(n)) <= n, unfold(n)], z3.Length(F(n + 1)) <= n + 1)]
+
+
 def _walk(e, seen, out):
     if e.get_id() in seen: return
     seen.add(e.get_id())
